@@ -25,7 +25,7 @@ CLS = {'NetworkNode': 0, 'Component': 1, 'NetworkService': 2, 'ConnectionPoint':
 REL = {'has': 0, 'connects': 1}
 REF = {'node': 'RNode', 'comp': 'RComp', 'ns': 'RNS', 'link': 'RLink', 'iface': 'RIface'}
 PN = {'name': 'PName', 'site': 'PSite', 'capacities': 'PCapacities', 'labels': 'PLabels', 'details': 'PDetails',
-      'type_node': 'PTypeNode'}
+      'type_node': 'PTypeNode', 'names': 'PNames'}
 UN = {'name': 'UName', 'type': 'UType', 'site': 'USite', 'capacities': 'UCapacities', 'labels': 'ULabels',
       'details': 'UDetails', 'nosuch': 'UNoSuch'}
 
@@ -38,7 +38,8 @@ def lib_flags():
     follows the code before and after a repair lands): rename check (C07-3), remove_link refuses a peering link
     (C07-4), _disconnect_from_services skips removed interfaces (C07-5), connect_interface checks the derived
     names (C07-6), add_component_sliver validates the new ids first (C09-6), connect_interface removes the port when
-    the link cannot be made (C09-7), peer refuses a self-peering and a taken link name (C07-7)."""
+    the link cannot be made (C09-7), peer refuses a self-peering and a taken link name (C07-7), set_properties(name=)
+    checks the scope (C07-8)."""
     if 'f' not in _FLAGS:
         import inspect
         from fim.user.model_element import ModelElement
@@ -55,6 +56,7 @@ def lib_flags():
             'comp_precheck': 'pairwise distinct' in src(ABCPropertyGraph.add_component_sliver),
             'connect_undo': 'remove_cp_and_links' in src(NetworkService.connect_interface),
             'peer_checks': 'check_node_unique' in src(NetworkService.peer),
+            'props_check': '_check_name_unique' in src(Node.set_properties),
         }
     return _FLAGS['f']
 
@@ -222,9 +224,9 @@ class Histories(Stream):
         body = '[' + ';\n     '.join(steps) + ']'
         tb = '[' + '; '.join(cstr(x).replace('%N', '') for x in tbl) + ']'
         fl = lib_flags()
-        flags = 'mkFlags %s %s %s %s %s %s %s' % (cbool(fl['rename_check']), cbool(fl['link_refuse']), cbool(fl['skip_gone']),
-                                                  cbool(fl['connect_names']), cbool(fl['comp_precheck']), cbool(fl['connect_undo']),
-                                                  cbool(fl['peer_checks']))
+        flags = 'mkFlags %s %s %s %s %s %s %s %s' % (cbool(fl['rename_check']), cbool(fl['link_refuse']), cbool(fl['skip_gone']),
+                                                     cbool(fl['connect_names']), cbool(fl['comp_precheck']), cbool(fl['connect_undo']),
+                                                     cbool(fl['peer_checks']), cbool(fl['props_check']))
         return '((%s, %s), %s,\n   fun s => %s)' % (cbool(case['flavour'] == 'sub'), flags, tb, body)
 
     # ---------------------------------------------------------------------------- independent oracle
@@ -326,7 +328,7 @@ class C07(Check):
         'Coq 8.16.1 kernel (coqc), vm_compute for the correspondence evaluation; no native_compute',
         'translator/gen_rules.py + translator/pyast.py (rules JSON, enum classes, component catalogue, NAME_REGEX, ViewOnlyDict -> Gen/Rules.v), fail-closed',
         'harness/c07.py, topo7_driver.py, topo7_gen.py, topo7_oracle.py + harness/common.py (history generation, fresh-handle resolution through the views, snapshot of storage.extract_graph, string table, cases.v writer)',
-        'seven behaviour flags read off the source of the library under test (lib_flags: repairs C07-3..7, C09-6, C09-7 present or not)',
+        'eight behaviour flags read off the source of the library under test (lib_flags: repairs C07-3..8, C09-6, C09-7 present or not)',
         'modelled not verified: networkx Graph (one undirected edge per pair, remove_node drops incident edges), networkx_query search_nodes as a filter, dict insertion/overwrite, uuid4 (replaced by a deterministic source in the harness process), re.fullmatch of the NAME_REGEX character classes on ASCII names',
     ]
     assumptions = [
@@ -394,6 +396,8 @@ WITNESSES = {
         [2, 'add_component', 'a', 'c1', 'c', 'SharedNIC', 'ConnectX-6', 's', ['i']],
         [3, 'add_ns', 's1', 'b', 'L2Bridge', ['i']],
         [4, 'remove_link', 'n1-c1-p1-link']]}),
+    'C07_set_properties_name_refuted': ('props_check', {'flavour': 'exp', 'ops': [
+        [1, 'add_node', 'n1', 'a', 'S1', 'VM'], [2, 'add_node', 'n2', 'b', 'S1', 'VM'], [3, 'set_prop', ['node', 'b'], 'names', 'n1']]}),
     'C07_peer_self_refuted': ('peer_checks', {'flavour': 'exp', 'ops': [
         [1, 'add_ns', 's1', 'a', 'L2Bridge', []], [2, 'peer', 'a', 'a']]}),
     'C07_peer_link_name_refuted': ('peer_checks', {'flavour': 'exp', 'ops': [
